@@ -11,8 +11,17 @@ void run_intfmt(const char *input) {
     /* exact-size allocation: ASan traps any store at index >= buflen */
     buf = (char *) malloc(buflen ? buflen : 1);
     memset(buf, 0xAA, buflen ? buflen : 1);
-    if (w == 32) ret = UInt32ToStrBaseSign((uint32_t) val, buflen ? buf : buf + 1, buflen, (int8_t) base, sgn ? TRUE : FALSE);
-    else ret = UInt64ToStrBaseSign(val, buflen ? buf : buf + 1, buflen, (int8_t) base, sgn ? TRUE : FALSE);
+    {
+        char *dst = buflen ? buf : buf + 1;
+        /* half of the cases a public wrapper can express go through that wrapper (same observation format, so the
+         * model and the judge of the private function apply): SCPI_Int32ToStr / SCPI_Int64ToStr = signed decimal,
+         * SCPI_UInt32ToStrBase / SCPI_UInt64ToStrBase = unsigned in the given base */
+        int via_wrapper = (((val >> 1) ^ val ^ buflen) & 1) != 0;
+        if (via_wrapper && sgn && base == 10) ret = w == 32 ? SCPI_Int32ToStr((int32_t) (uint32_t) val, dst, buflen) : SCPI_Int64ToStr((int64_t) val, dst, buflen);
+        else if (via_wrapper && !sgn) ret = w == 32 ? SCPI_UInt32ToStrBase((uint32_t) val, dst, buflen, (int8_t) base) : SCPI_UInt64ToStrBase(val, dst, buflen, (int8_t) base);
+        else if (w == 32) ret = UInt32ToStrBaseSign((uint32_t) val, dst, buflen, (int8_t) base, sgn ? TRUE : FALSE);
+        else ret = UInt64ToStrBaseSign(val, dst, buflen, (int8_t) base, sgn ? TRUE : FALSE);
+    }
     if (ret < buflen) {
         nul = buf[ret] == 0 ? '1' : '0';
         for (i = ret + 1; i < buflen; i++) if ((unsigned char) buf[i] != 0xAA) canary = 0;
